@@ -12,18 +12,6 @@ import (
 	"pgregory.net/rapid"
 )
 
-func vgfTempDir(t *rapid.T) string {
-	base := os.Getenv("VERIF_RUNDIR")
-	if base == "" {
-		base = os.TempDir()
-	}
-	dir, err := os.MkdirTemp(base, "vgf-")
-	if err != nil {
-		t.Fatalf("tempdir: %v", err)
-	}
-	return dir
-}
-
 func vgfRunC07(t *rapid.T, kinds []string) {
 	cfg := vgfGenCfg(t, "cfg", kinds, []string{CacheTypeRanked, CacheTypeLRU, CacheTypeNone}, []uint32{2, 3, 50000})
 	dir := vgfTempDir(t)
@@ -56,12 +44,13 @@ func vgfRunC07(t *rapid.T, kinds []string) {
 	closed = true
 
 	c.Key("c07", cfg.String(), m.hist)
-	c.Class("kind:" + cfg.Kind).Class("cache:" + cfg.Cache).Class("maxOpN:%d", cfg.MaxOpN)
+	c.Class("kind:"+cfg.Kind).Class("cache:"+cfg.Cache).Class("maxOpN:%d", cfg.MaxOpN)
 	c.ClassIf(cfg.Bg, "bgQueue").ClassIf(m.nSnap > 0, "snapshotHappened").ClassIf(m.nReopen > 1, "reopenMidHistory")
 	for p := range m.paths {
 		c.Class("path:" + p)
 	}
 	c.ClassIf(m.crossPath, "crossPathAfterRead")
+	c.ClassIf(m.wide, "containerBeyondInlineSize")
 	c.NT(m.crossPath)
 	c.Sample(map[string]interface{}{"cfg": cfg.String(), "history": m.hist})
 }
